@@ -1,6 +1,7 @@
 package main
 
 import (
+	"bytes"
 	"encoding/hex"
 	"fmt"
 	"runtime"
@@ -28,14 +29,14 @@ func dirStr(d *go9p.Dir) string {
 
 // gmsg: a message value as the generator sees it (kind = type number)
 type gmsg struct {
-	kind          uint8
-	a, b, c       uint64 // integer fields in wire order
-	s1, s2, s3    []byte
-	q             go9p.Qid
-	names         [][]byte
-	qids          []go9p.Qid
-	data          []byte
-	dir           go9p.Dir
+	kind       uint8
+	a, b, c    uint64 // integer fields in wire order
+	s1, s2, s3 []byte
+	q          go9p.Qid
+	names      [][]byte
+	qids       []go9p.Qid
+	data       []byte
+	dir        go9p.Dir
 }
 
 func (m *gmsg) String() string {
@@ -509,6 +510,30 @@ func modeCodec(tier string, args []string) {
 					if big {
 						stat("codec.big", 1)
 					}
+				}
+			}
+		}
+		// several long strings in one message: more than 64 KiB follow a string's length prefix (first round only)
+		if r == 0 {
+			long := func(n int, c byte) []byte { return bytes.Repeat([]byte{c}, n) }
+			for dotu := 0; dotu < 2; dotu++ {
+				du := dotu == 1
+				ms := []*gmsg{
+					{kind: go9p.Tattach, a: 1, b: 2, s1: long(300, 'u'), s2: long(65400, 'a'), c: 7},
+					{kind: go9p.Tauth, a: 1, s1: long(40000, 'u'), s2: long(30000, 'a'), b: 7},
+					{kind: go9p.Twalk, a: 1, b: 2, names: [][]byte{long(40000, 'x'), long(30000, 'y')}},
+					{kind: go9p.Twalk, a: 1, b: 2, names: [][]byte{long(10, 'x'), long(65535, 'y'), long(3, 'z')}},
+					{kind: go9p.Tcreate, a: 1, s1: long(1000, 'n'), b: 0644, c: 1, s2: long(65000, 'e')},
+					{kind: go9p.Rerror, s1: long(65535, 'E'), a: 5},
+					{kind: go9p.Tversion, a: 8192, s1: long(65535, 'v')},
+				}
+				for _, m := range ms {
+					l := encLen(m, du)
+					if l < 0 {
+						continue
+					}
+					packCase(m, du, l+rng.Intn(2)*17, byte(rng.Intn(256)), 9)
+					stat("codec.multi_long_strings", 1)
 				}
 			}
 		}
